@@ -15,6 +15,7 @@
    is retrieved instead of built, what is built is stored.  This file holds only the statement, the
    theorems and non-vacuity examples. *)
 From PlzV Require Import Base.Harness Model.C31 Proof.C31 Proof.C31_Progress.
+From PlzV Require Model.C31_Protocol Proof.C31_Protocol.
 
 (* Granularity.  The transition system keeps plz-out as a map from LABELS to outputs; that is plz-out
    itself as long as distinct targets write distinct paths.  Two filegroups may legally write the same
@@ -174,6 +175,90 @@ Proof. split; [exact ex_deps_closed|vm_compute; reflexivity]. Qed.
 Theorem C31_events_match_source : protocol_ok = true.
 Proof. exact lock_protocol_ok. Qed.
 Print Assumptions C31_events_match_source.
+
+(* THE CRITICAL SECTION.  The theorems above take for granted that the flock is held from Begin to End.  At the
+   granularity of buildTarget's statements (Model/C31_Protocol.v): n processes - any number - run, on the same
+   target, the statement list that gotrans regenerates from the source for that KIND of target (filegroup or
+   not: where the lock is taken, where it is released relative to StoreTargetMetadata / moveOutputs, what is
+   deferred); a process is inside the section from the moment it starts on the first of prepareDirectories /
+   retrieveArtifacts / prepareSources / build / StoreTargetMetadata / moveOutputs / calculateAndCheckRuleHash /
+   buildFilegroup until it has completed the last one (statements are not atomic).  For both kinds and EVERY
+   schedule no two processes are inside at the same time; whoever is inside holds the lock; at most one
+   process holds it. *)
+Theorem C31_critical_section :
+  forall (filegroup : bool) (n : nat) (sched : list nat),
+    let st := C31_Protocol.prun n sched (C31_Protocol.pinit (C31_Protocol.prot_of filegroup)) in
+    (forall i j, i < n -> j < n -> i <> j ->
+       C31_Protocol.inside (st i) = true -> C31_Protocol.inside (st j) = true -> False)
+    /\ (forall i, C31_Protocol.inside (st i) = true -> C31_Protocol.p_held (st i) = true)
+    /\ (forall i j, i < n -> j < n -> C31_Protocol.p_held (st i) = true -> C31_Protocol.p_held (st j) = true -> i = j)
+    /\ C31_Protocol.clash n st = false.
+Proof.
+  exact (fun fg n sched =>
+    let Hg := Proof.C31_Protocol.guarded_of_kind fg in
+    conj (Proof.C31_Protocol.protocol_mutex _ n sched Hg)
+      (conj (proj1 (Proof.C31_Protocol.protocol_inside_holds _ n sched Hg))
+        (conj (proj2 (Proof.C31_Protocol.protocol_inside_holds _ n sched Hg))
+              (Proof.C31_Protocol.protocol_no_clash _ n sched Hg)))).
+Qed.
+Print Assumptions C31_critical_section.
+
+(* the same for EVERY statement list that satisfies the static condition `guarded` (the lock is not taken
+   while held, every statement of the section runs with the lock held, nothing of the section follows a
+   release) - the theorem is about the protocol, the source only has to pass the check *)
+Theorem C31_guarded_excludes :
+  forall (prot : list C31_Protocol.op) (n : nat) (sched : list nat),
+    C31_Protocol.guarded false prot = true ->
+    forall i j, i < n -> j < n -> i <> j ->
+      C31_Protocol.inside (C31_Protocol.prun n sched (C31_Protocol.pinit prot) i) = true ->
+      C31_Protocol.inside (C31_Protocol.prun n sched (C31_Protocol.pinit prot) j) = true -> False.
+Proof. exact Proof.C31_Protocol.protocol_mutex. Qed.
+Print Assumptions C31_guarded_excludes.
+
+(* progress at that granularity: unless every process has returned from buildTarget some process can move
+   (the holder of the lock never waits for it again), every move lowers pmu, which starts at
+   n * (statements + 1): nobody waits for the lock for ever under any schedule that keeps moving *)
+Theorem C31_section_progress :
+  forall (filegroup : bool) (n : nat) (sched : list nat),
+    let prot := C31_Protocol.prot_of filegroup in
+    let st := C31_Protocol.prun n sched (C31_Protocol.pinit prot) in
+    (C31_Protocol.all_exited n st = false -> exists i, i < n /\ C31_Protocol.pstep n st i <> None)
+    /\ (forall st0 i st', C31_Protocol.pstep n st0 i = Some st' -> C31_Protocol.pmu n st' < C31_Protocol.pmu n st0)
+    /\ C31_Protocol.pmu n (C31_Protocol.pinit prot) = n * S (length prot).
+Proof.
+  exact (fun fg n sched =>
+    conj (Proof.C31_Protocol.protocol_no_deadlock _ n sched (Proof.C31_Protocol.guarded_of_kind fg))
+      (conj (Proof.C31_Protocol.protocol_measure n) (Proof.C31_Protocol.pmu_init _ n))).
+Qed.
+Print Assumptions C31_section_progress.
+
+(* both halves of the static condition are needed: with the lock given back after the command but before the
+   outputs are collected, and with a kind of target that does not take the lock, two processes DO meet
+   inside the section *)
+Theorem C31_section_lock_needed :
+  (C31_Protocol.guarded false Proof.C31_Protocol.early_release = false
+   /\ C31_Protocol.clash 2 (C31_Protocol.prun 2 [0; 0; 0; 0; 0; 0; 1; 1; 1] (C31_Protocol.pinit Proof.C31_Protocol.early_release)) = true)
+  /\ (C31_Protocol.guarded false Proof.C31_Protocol.unlocked_kind = false
+      /\ C31_Protocol.clash 2 (C31_Protocol.pinit Proof.C31_Protocol.unlocked_kind) = true).
+Proof. exact (conj Proof.C31_Protocol.early_release_clashes Proof.C31_Protocol.unlocked_kind_clashes). Qed.
+Print Assumptions C31_section_lock_needed.
+
+(* what the statement lists are, as regenerated from the source now; three processes on one target: one is
+   inside holding the lock while another has not got past AcquireExclusiveFileLock; all three get through *)
+Example C31_critical_section_nonvacuous :
+  (C31_Protocol.prot_nonfg = [C31_Protocol.OAcq; C31_Protocol.ODefer; C31_Protocol.OSkip; C31_Protocol.OSkip;
+       C31_Protocol.OCrit; C31_Protocol.OCrit; C31_Protocol.OCrit; C31_Protocol.OCrit; C31_Protocol.OCrit; C31_Protocol.OCrit;
+       C31_Protocol.OCrit; C31_Protocol.OCrit; C31_Protocol.OSkip; C31_Protocol.OSkip]
+   /\ C31_Protocol.prot_fg = [C31_Protocol.OAcq; C31_Protocol.ODefer; C31_Protocol.OCrit; C31_Protocol.OCrit])
+  /\ (let mid := C31_Protocol.prun 3 [0; 0; 0; 0; 0; 1; 2] (C31_Protocol.pinit C31_Protocol.prot_nonfg) in
+      C31_Protocol.inside (mid 0) = true /\ C31_Protocol.p_held (mid 0) = true /\ C31_Protocol.p_held (mid 1) = false
+      /\ C31_Protocol.p_rest (mid 1) = C31_Protocol.prot_nonfg
+      /\ C31_Protocol.all_exited 3 (C31_Protocol.prun 3 (repeat 0 15 ++ repeat 1 15 ++ repeat 2 15) (C31_Protocol.pinit C31_Protocol.prot_nonfg)) = true
+      /\ C31_Protocol.pmu 3 (C31_Protocol.pinit C31_Protocol.prot_nonfg) = 45).
+Proof.
+  exact (conj (conj (proj1 Proof.C31_Protocol.gen_paths_shape) (proj1 (proj2 Proof.C31_Protocol.gen_paths_shape)))
+              Proof.C31_Protocol.ex_protocol_nonvacuous).
+Qed.
 
 (* Non-vacuity: the hypotheses hold for the instance used by the correspondence check, on a
    repository where two processes build the same two targets; the run finishes, the second target
